@@ -377,7 +377,9 @@ class Interpolator:
                     except ExpressionError:
                         matched = matched[m.start():m.end() - 1]
                         m = self.regex.search(matched)
-                        if m is None:
+                        # (a shorter expression starts where this one
+                        # does, it is not a variable inside of it)
+                        if m is None or m.start() > 0:
                             raise
 
                         continue
